@@ -373,7 +373,7 @@ pub fn arb_case(p: TreeParams, maxops: usize) -> BoxedStrategy<Case> {
 
 fn run(ctx: &mut Ctx) {
     let cases = ctx.share(ctx.tier.pick(200_000, 1_000_000));
-    let p = ctx.tier.pick(TreeParams::small(), TreeParams::quick());
+    let p = ctx.tier.pick(TreeParams::small(), TreeParams::quick()).with_big(1);
     let maxops = ctx.tier.pick(12, 40);
     run_strategy(ctx, "C07", "chains", cases, arb_case(p, maxops), check);
 }
